@@ -99,6 +99,15 @@ type Spec struct {
 	InlineLit func(c *Ctx, lit *ast.FuncLit, parent ast.Node) bool
 	// NoReturn reports additional calls that never return (log.Fatal, os.Exit are built in).
 	NoReturn func(c *Ctx, call *ast.CallExpr) bool
+	// InlineCalls switches on the simulation of statically resolved same-package callees
+	// (functions and methods with a body, depth <= 2, no recursion) in place of their call.
+	// With inlining a rule sees through extracted helpers: the callee's events are delivered
+	// between the call event and whatever follows the call; its returns end the callee only,
+	// and its deferred calls run at its returns. Off by default: rules that identify their
+	// events by position in the root function must not see a callee's look-alike events.
+	InlineCalls bool
+	// InlineFunc, when set, restricts inlining to callees it accepts.
+	InlineFunc func(c *Ctx, fn *types.Func) bool
 }
 
 type Violation struct {
@@ -131,6 +140,10 @@ type Ctx struct {
 	States     map[State]bool
 	Undecided  []string
 	returns    []cst
+	Depth      int               // > 0 while an inlined callee is being simulated
+	stack      []*types.Func     // inlined callees (recursion guard)
+	rootPkg    *types.Package    // package of the simulated root function
+	pending    [][]*ast.CallExpr // deferred calls of the inlined callees, innermost last
 }
 
 // Violate records a violation at the current event with the path that led here.
@@ -170,6 +183,11 @@ func Run(p *prog.Prog, fn ast.Node, spec *Spec) *Ctx {
 		prog.Fatalf("pathsim: function without body at %s", p.Pos(fn.Pos()))
 	}
 	c := &Ctx{P: p, Info: p.InfoAt(fn.Pos()), Body: body, Fn: fn, spec: spec, vseen: map[string]bool{}, States: map[State]bool{}}
+	if f := p.FileAt(fn.Pos()); f != nil {
+		if pk := p.PkgOfFile(f); pk != nil {
+			c.rootPkg = pk.Types
+		}
+	}
 	in := []cst{{s: spec.Init, t: &trace{pos: body.Lbrace}}}
 	fl := c.stmt(body, in, "")
 	for l := range fl.brk {
@@ -266,7 +284,8 @@ func (c *Ctx) emit(ev *Event, in []cst) []cst {
 		c.States[x.s] = true
 		c.cur = cst{s: x.s, t: &trace{pos: ev.Pos, prev: x.t}}
 		var next []State
-		if c.spec.Step != nil {
+		hidden := c.Depth > 0 && (ev.Kind == EvReturn || ev.Kind == EvExit) // a callee's return is not the function's
+		if c.spec.Step != nil && !hidden {
 			next = c.spec.Step(c, x.s, ev)
 		}
 		if next == nil {
@@ -439,7 +458,64 @@ func (c *Ctx) call(x *ast.CallExpr, in []cst, deferred, goStmt bool) []cst {
 		c.emit(&Event{Kind: EvPanic, Node: x, Pos: x.Pos(), Call: x, Callee: callee}, in)
 		return nil
 	}
-	return c.emit(&Event{Kind: EvCall, Node: x, Pos: x.Pos(), Call: x, Callee: callee, Deferred: deferred, Go: goStmt}, in)
+	if deferred && c.Depth > 0 {
+		// a deferred call of an inlined callee runs when that callee returns
+		c.pending[len(c.pending)-1] = append(c.pending[len(c.pending)-1], x)
+		return in
+	}
+	out := c.emit(&Event{Kind: EvCall, Node: x, Pos: x.Pos(), Call: x, Callee: callee, Deferred: deferred, Go: goStmt}, in)
+	if !deferred && !goStmt {
+		if fn, ok := callee.(*types.Func); ok {
+			out = c.inlineCallee(fn, out)
+		}
+	}
+	return out
+}
+
+// inlineCallee simulates the body of a statically resolved same-package function in place.
+func (c *Ctx) inlineCallee(fn *types.Func, in []cst) []cst {
+	if !c.spec.InlineCalls || len(in) == 0 || c.Depth >= 2 || fn.Pkg() == nil || fn.Pkg() != c.rootPkg {
+		return in
+	}
+	if c.spec.InlineFunc != nil && !c.spec.InlineFunc(c, fn) {
+		return in
+	}
+	for _, s := range c.stack {
+		if s == fn {
+			return in
+		}
+	}
+	fi := c.P.FuncInfoOf(fn)
+	if fi == nil || fi.Decl == nil || fi.Decl.Body == nil {
+		return in
+	}
+	if root, ok := c.Fn.(*ast.FuncDecl); ok && root == fi.Decl {
+		return in // direct recursion into the root
+	}
+	savedReturns, savedInfo := c.returns, c.Info
+	c.returns = nil
+	c.Info = fi.Pkg.TypesInfo
+	c.Depth++
+	c.stack = append(c.stack, fn)
+	c.pending = append(c.pending, nil)
+	fl := c.stmt(fi.Decl.Body, in, "")
+	out := append(fl.out, c.returns...)
+	out = dedup(out)
+	// deferred calls of the callee, last registered first
+	defs := c.pending[len(c.pending)-1]
+	c.pending = c.pending[:len(c.pending)-1]
+	c.Depth--
+	for i := len(defs) - 1; i >= 0; i-- {
+		d := defs[i]
+		c.Depth++
+		c.pending = append(c.pending, nil)
+		out = c.call(d, out, false, false)
+		c.pending = c.pending[:len(c.pending)-1]
+		c.Depth--
+	}
+	c.stack = c.stack[:len(c.stack)-1]
+	c.returns, c.Info = savedReturns, savedInfo
+	return out
 }
 
 func (c *Ctx) watched(sel *ast.SelectorExpr) *types.Var {
